@@ -48,12 +48,16 @@ CURATED = [
     ("con", "Decimal", (("decimal_places", 2),), (), ()), ("gen", "set", (("leaf", "int"),)), ("leaf", "UUID"), ("leaf", "timedelta"),
     ("or", (("leaf", "int"), ("leaf", "NoneType"))), ("not", ("con", "int", (("lt", 0),), (), ())), ("con", "int", (("ge", 0),), (), ()),
     ("or", (("leaf", "str"), ("gen", "list", (("leaf", "str"),)))), ("xor", (("leaf", "int"), ("leaf", "str"))),
+    # bare builtin containers (their converters read bracketed text as JSON / a Python literal)
+    ("leaf", "list"), ("leaf", "tuple"), ("leaf", "dict"), ("leaf", "set"), ("not", ("leaf", "list")), ("not", ("leaf", "dict")),
 ]
 DICT_CONS = [("con", "dict", (("min_length", 2),), (), ()), ("con", "dict", (("max_length", 1),), (), ()),
              ("gen", "dict", (("leaf", "str"), ("leaf", "int")))]
 DCS = [DC_A, DC_B, DC_C]
 CUR_INPUTS = [10.0, "10", b"7", True, 5, 5.0, "5", None, "null", 3.5, -3, "-3", "ab", "abc", [1], ["1"], [1, 2], {"a": "1"}, {"a": 1, "b": 2},
-              {"a": "x"}, "a", 1, 0, "1.5", "2020-01-02", 12, "12", 11, (1, "x"), [3, "y"], "3.14", b"ab", 1.0, False, "true", "", 100, "100"]
+              {"a": "x"}, "a", 1, 0, "1.5", "2020-01-02", 12, "12", 11, (1, "x"), [3, "y"], "3.14", b"ab", 1.0, False, "true", "", 100, "100",
+              # bracketed text that is neither JSON nor a Python literal
+              "[1,,2]", "{a:}", "(1 2)", "[1, 2", "{'a': }", "[1, 2]", "(1, 2)", '{"a": 1}']
 
 _state = {}
 
@@ -255,6 +259,14 @@ def run_case(case, ctx):
             ctx.count("calls")
             wit = {"op": comb, "args": [TS.describe(s)[:120] for s in specs], "type": short(T, 200), "options": opts, "input": xr,
                    "outcome": repr(out)}
+            if out.kind == "escape" and comb == "~":
+                # a negation must ACCEPT what its argument rejects, whatever the argument raised: when the argument alone
+                # fails on this input (with any exception) and the negation lets an exception out, the verdict is wrong
+                o = call(Ts[0], fresh(), opts)
+                if not o.ok:
+                    ctx.violation("C09/not/verdict", f"{short(T, 120)}({xr}): {out!r} while the argument alone gives {o!r} (rejected: the negation must accept)",
+                                  wit, sig=(comb, shapes, okey, xc, out.kind))
+                continue
             if out.kind not in ("ok", "parse"):
                 if out.kind == "escape":
                     ctx.count("combinator_escape_left_to_C04")
